@@ -60,6 +60,10 @@ def menu(c: reg.Country, comp: str, salt: int, tier: str, other_w: int = 0) -> l
         if w >= 2:
             items.append(comb[:w] + " " + comb[w:-1])   # raw length == combined width, one real char less
             items.append(comb[:w] + " " + comb[w:])     # a genuine combined code written with a blank
+    # over-long AND carrying characters that are special to str.format / % / re: the error class of
+    # the length defect is owed whatever the characters are
+    z = conforming(c, comp, max(w, 1), salt + 2)
+    items += [z + "{}", z + "{0}%s", z[:-1] + "{" + z[-1:] + "}", z + "\\1"]
     if w >= 3:
         y = conforming(c, comp, w - 2, salt + 3)  # white-space inside a value that also needs padding
         items.append(y[:1] + " " + y[1:])
@@ -123,6 +127,8 @@ def judge(country: str, values: dict, via: str):
 def shard(args):
     if args[0] == "sequence":
         return sequence_shard(args)
+    if args[0] == "interpreter":
+        return par.in_interpreter(INTERPRETERS[args[1]], "mc.props.c08", "interpreter_child", (args[2], args[1]))
     country, tier = args
     part = par.Part()
     c = reg.countries().get(country)
@@ -165,6 +171,18 @@ def shard(args):
     same_rows = []
     for x in ("1", "12", mb[2] if bw else "7", conforming(c, "bank_code", max(1, min(bw or 1, aw or 1, rw or bw or 1)), 5)):
         same_rows += [(x, x, x if rw else ""), (x, x, ""), (x, ma[2] if aw else "", x if rw else "")]
+    # the account written behind the (padded / unpadded) bank code, behind bank + branch, and the
+    # bank code repeated in front of itself
+    bfull = mb[2] if bw else ""
+    afull = conforming(c, "account_code", aw, 4) if aw else ""
+    rfull = conforming(c, "branch_code", rw, 7) if rw else ""
+    for bcode in dict.fromkeys([bfull, bfull[1:] if len(bfull) > 1 else bfull]):
+        padded = bcode.rjust(bw, "0")
+        for acct in dict.fromkeys([bcode + afull, padded + afull, padded + rfull + afull, padded + afull[1:],
+                                   padded + afull + "1", "0" * bw + afull, afull + padded]):
+            same_rows.append((bcode, acct, rfull))
+            same_rows.append((bcode, acct, ""))
+        same_rows.append((bcode + bcode, afull, rfull))
     for b, a, r in dict.fromkeys(same_rows):
         vals = {"bank_code": b, "account_code": a, "branch_code": r}
         part.count((country, "equal-values", b, a, r))
@@ -190,6 +208,37 @@ def shard(args):
     part.sample({"country": country, "bank_menu": mb, "account_menu": ma[:4], "branch_menu": mr[:4]})
     part.stat("countries_with_positions")
     return part.done()
+
+
+def interpreter_child(arg):
+    """Runs inside a brand-new interpreter started with other options (``-O``: asserts compiled
+    away; ``-W error``: every warning is an exception): per country the exact-width, short,
+    combined-width, over-long and lower-case / spaced forms, through both entry points."""
+    tier, label = arg
+    part = par.Part()
+    table = reg.countries()
+    for code in sorted(k for k, c in table.items() if c.positions):
+        c = table[code]
+        vals = exact_values(code)
+        rows = [vals, {k: v[1:] if len(v) > 1 else v for k, v in vals.items()},
+                {k: " " + v.lower() for k, v in vals.items()}]
+        if vals["branch_code"]:
+            rows.append({"bank_code": vals["bank_code"] + vals["branch_code"], "account_code": vals["account_code"],
+                         "branch_code": ""})
+        for comp in vals:
+            rows.append(dict(vals, **{comp: vals[comp] + "9"}))
+        for v in rows:
+            for via in ("generate", "components"):
+                part.count((label, code, via, tuple(sorted(v.items()))))
+                st, sig, exp, obs = judge(code, v, via)
+                if st == "bad":
+                    part.violation(f"{sig} [{label}]", {"kind": "c08", "country": code, "values": v, "via": via,
+                                                        "interpreter": label}, exp, obs)
+    part.stat("interpreter_runs")
+    return part.done()
+
+
+INTERPRETERS = {"python -O": ["-O"], "python -W error": ["-W", "error"]}
 
 
 def exact_values(code: str, salt: int = 0) -> dict:
@@ -233,6 +282,12 @@ def sequence_shard(args):
 
 
 def replay(case: dict) -> dict:
+    if case.get("interpreter"):
+        label = case["interpreter"]
+        part = par.in_interpreter(INTERPRETERS[label], "mc.props.c08", "interpreter_child", ("quick", label))
+        hit = [v for v in part["violations"] if v["case"]["country"] == case["country"]
+               and v["case"]["values"] == case["values"] and v["case"]["via"] == case["via"]]
+        return {"ok": not hit, "observed": hit[0]["observed"] if hit else None, "interpreter": label}
     st, sig, exp, obs = judge(case["country"], case["values"], case["via"])
     return {"ok": st != "bad", "signature": sig, "expected": exp, "observed": obs}
 
@@ -242,6 +297,7 @@ def main(tier: str) -> int:
     countries = sorted(reg.countries())
     extra = ["XX", "de", "D", "", "DEU", "ZZ"]
     seqs = [("sequence", o, tier) for o in ("sorted", "reversed", "by-structure", "by-structure-reversed")]
+    seqs += [("interpreter", label, tier) for label in INTERPRETERS]
     par.run_shards(run, shard, [(c, tier) for c in countries + extra] + seqs)
     run.extra.update({"countries": len(countries), "pseudo_countries": extra})
     run.assumptions += ["reference assembly mc/ref/gen.py over the tree's position table; national "
